@@ -135,6 +135,44 @@ func c13Wallets() []c13Wallet {
 		out = append(out, c13Wallet{Name: "bip44-unlocked-after-generating-while-locked", W: ul, Addr: a, Key: k})
 	}
 
+	// bip44 wallet (never encrypted) whose addresses came from SEVERAL generation calls: 2 more external addresses in one call,
+	// then 2 more in another, then a peeked change address.  w.addr0 / w.addr1 are the last external address and the last change
+	// address; the expected keys come from the independent BIP44 derivation.
+	{
+		mw := newBip44(bipMnemonic(2), bipPassphrases[0], crypto.CryptoTypeSha256Xor)
+		for _, n := range []uint64{2, 2} {
+			_, err := mw.GenerateAddresses(wallet.OptionGenerateN(n))
+			must(err)
+		}
+		for i := 0; i < 2; i++ {
+			_, err := mw.GenerateAddresses(wallet.OptionGenerateN(1), wallet.OptionChange())
+			must(err)
+		}
+		// expected keys: the independent BIP39/32/44 derivation (m/44'/8000'/0'/chain/index), not the wallet's own entries
+		me, _ := mw.GetEntries()
+		nExt, nChg := 0, 0
+		for _, e := range me {
+			if e.Change == 0 {
+				nExt++
+			} else {
+				nChg++
+			}
+		}
+		refExt, err := walletref.Bip44Chain(bipMnemonic(2), bipPassphrases[0], 8000, 0, 0, nExt, false)
+		must(err)
+		refChg, err := walletref.Bip44Chain(bipMnemonic(2), bipPassphrases[0], 8000, 0, 1, nChg, false)
+		must(err)
+		if nExt < 5 || nChg < 2 {
+			panic(fmt.Sprintf("fixture: bip44 multi-call wallet has %d external and %d change entries", nExt, nChg))
+		}
+		var k0, k1 cipher.SecKey
+		copy(k0[:], refExt[nExt-1].Sec)
+		copy(k1[:], refChg[nChg-1].Sec)
+		a = [3]cipher.Address{cipher.MustDecodeBase58Address(refExt[nExt-1].Address), cipher.MustDecodeBase58Address(refChg[nChg-1].Address), foreignAddr}
+		k = [3]cipher.SecKey{k0, k1, foreignKey}
+		out = append(out, c13Wallet{Name: "bip44-addresses-generated-in-several-calls", W: mw, Addr: a, Key: k})
+	}
+
 	// collection wallet filled by IMPORT batches that repeat keys it already holds (before, between and after new keys): every
 	// stored entry must keep its own secret.  w.addr0 / w.addr1 are two keys imported after a repeated one.
 	{
